@@ -60,3 +60,232 @@ def fmt_long_twin(n: int) -> int:
     post: _ != 1
     """
     return 1 if _is_plain_decimal(format_number(n, CellType.LONG), n) else 0
+
+
+# ------------------------------------------------------------------ more
+from vlib.foldharness import new_cpu           # noqa: E402
+from vlib.symqvm import SymImpl                # noqa: E402
+from qvm.machine import DataDevice, TerminalDevice  # noqa: E402
+from qvm.cpu import QVM_DEVICES                # noqa: E402
+from qvm.trap import Trapped                   # noqa: E402
+from props import ob_units                     # noqa: E402
+
+
+def _neg_same_digits(n, ctype):
+    a = format_number(n, ctype)
+    b = format_number(-n, ctype)
+    return 1 if a[1:] == b[1:] else 0
+
+
+def neg_integer(n: int) -> int:
+    """
+    pre: -32767 <= n <= 32767
+    post: _ == 1
+    """
+    return _neg_same_digits(n, CellType.INTEGER)
+
+
+def neg_integer_twin(n: int) -> int:
+    """
+    pre: -32767 <= n <= 32767
+    post: _ != 1
+    """
+    return _neg_same_digits(n, CellType.INTEGER)
+
+
+def neg_long(n: int) -> int:
+    """
+    pre: -2147483647 <= n <= 2147483647
+    post: _ == 1
+    """
+    return _neg_same_digits(n, CellType.LONG)
+
+
+def neg_long_twin(n: int) -> int:
+    """
+    pre: -2147483647 <= n <= 2147483647
+    post: _ != 1
+    """
+    return _neg_same_digits(n, CellType.LONG)
+
+
+def _print_vs_str(n, ctype):
+    """PRINT n and STR$(n) show the same text (PRINT adds one blank)."""
+    impl = SymImpl()
+    cpu = new_cpu()
+    dev = TerminalDevice(QVM_DEVICES['terminal']['id'], cpu, impl)
+    cpu.push(CellType.INTEGER, 0)
+    cpu.push(ctype, n)
+    cpu.push(CellType.INTEGER, 2)
+    dev._exec_print()
+    printed = impl.trace[0][2]
+    cpu.push(ctype, n)
+    cpu._exec_ntos()
+    s = cpu.stack.pop().value
+    return 1 if printed == s + ' \r\n' else 0
+
+
+def print_str_integer(n: int) -> int:
+    """
+    pre: -32768 <= n <= 32767
+    post: _ == 1
+    """
+    return _print_vs_str(n, CellType.INTEGER)
+
+
+def print_str_integer_twin(n: int) -> int:
+    """
+    pre: -32768 <= n <= 32767
+    post: _ != 1
+    """
+    return _print_vs_str(n, CellType.INTEGER)
+
+
+def print_str_long(n: int) -> int:
+    """
+    pre: -2147483648 <= n <= 2147483647
+    post: _ == 1
+    """
+    return _print_vs_str(n, CellType.LONG)
+
+
+def print_str_long_twin(n: int) -> int:
+    """
+    pre: -2147483648 <= n <= 2147483647
+    post: _ != 1
+    """
+    return _print_vs_str(n, CellType.LONG)
+
+
+class _Mod:
+    n_global_cells = 0
+    code = b''
+    literals = []
+    debug_info = None
+
+    def __init__(self, data):
+        self.data = data
+
+
+def _value_of(text):
+    """Integer denoted by sign-or-blank + digits (independent fold)."""
+    neg = text[0] == '-'
+    v = 0
+    for ch in text[1:]:
+        v = v * 10 + (ord(ch) - 48)
+    return -v if neg else v
+
+
+def _wf(text, maxdigits):
+    if len(text) < 2 or len(text) > maxdigits + 1:
+        return False
+    if text[0] != ' ' and text[0] != '-':
+        return False
+    for ch in text[1:]:
+        if not (48 <= ord(ch) <= 57):
+            return False
+    if len(text) > 2 and text[1] == '0':
+        return False
+    if text == '-0':
+        return False
+    return True
+
+
+def _read_back(text, tchar):
+    """READ and INPUT of the text PRINT/STR$ would show give the value
+    back (or reject it iff it is out of range), and formatting that value
+    gives the text back."""
+    from qvm.cpu import QvmCpu
+    ctype = CellType.INTEGER if tchar == '%' else CellType.LONG
+    lo, hi = (-32768, 32767) if tchar == '%' else (-2147483648, 2147483647)
+    want = _value_of(text)
+    in_range = lo <= want <= hi
+    item = ob_units._strip(text)          # DATA items arrive trimmed
+    # READ
+    cpu = QvmCpu(_Mod([[item]]))
+    dev = DataDevice(QVM_DEVICES['data']['id'], cpu, None)
+    cpu.push(CellType.INTEGER, 1 if tchar == '%' else 2)
+    try:
+        dev._exec_read()
+        ok = True
+    except Trapped:
+        ok = False
+    except Exception:
+        return 0
+    if ok != in_range:
+        return 0
+    if ok:
+        cell = cpu.stack[-1]
+        if cell.type != ctype or cell.value != want:
+            return 0
+        if format_number(cell.value, ctype) != text:
+            return 0
+    # INPUT (the line as typed: the text itself)
+    res, cpu2, impl = ob_units.run_input(tchar, '', True, False,
+                                         [text, '0'])
+    if res != ('ok',):
+        return 0
+    got = cpu2.stack[-1]
+    if got.type != ctype:
+        return 0
+    accepted_first = len(impl.trace) == 3
+    if accepted_first != in_range:
+        return 0
+    if in_range and got.value != want:
+        return 0
+    return 1
+
+
+def readback_integer(text: str) -> int:
+    """
+    pre: _wf(text, 6)
+    post: _ == 1
+    """
+    return _read_back(text, '%')
+
+
+def readback_integer_twin(text: str) -> int:
+    """
+    pre: _wf(text, 6)
+    post: _ != 1
+    """
+    return _read_back(text, '%')
+
+
+def readback_long(text: str) -> int:
+    """
+    pre: _wf(text, 10)
+    post: _ == 1
+    """
+    return _read_back(text, '&')
+
+
+def readback_long_twin(text: str) -> int:
+    """
+    pre: _wf(text, 10)
+    post: _ != 1
+    """
+    return _read_back(text, '&')
+
+
+VAL_VALUES = [0, 1, -1, 9, 10, -10, 99, 100, 32767, -32768, 32768, 65535,
+              100000, 2147483647, -2147483648, 1000000000, -999999999]
+
+
+def val_roundtrip():
+    """VAL(STR$(n)) = n on a boundary table (native enumeration: VAL runs
+    the pyparsing grammar, which cannot be executed symbolically)."""
+    from vlib.symqvm import run_program
+    for n in VAL_VALUES:
+        t = '%' if -32768 <= n <= 32767 else '&'
+        lit = ('%d%s' % (n, t)) if n >= 0 else ('(-%d%s)' % (-n, t)) \
+            if n != -32768 and n != -2147483648 else None
+        if lit is None:
+            src = 'n%s = (-%d%s) - 1%s\n' % (t, -n - 1, t, t)
+        else:
+            src = 'n%s = %s\n' % (t, lit)
+        src += 'PRINT (VAL(STR$(n%s)) = n%s)\n' % (t, t)
+        trace, out, _ = run_program(src, 0, False, 200)
+        if trace != [('terminal', 'print', '-1 \r\n')]:
+            return 0
+    return 1
